@@ -116,10 +116,22 @@ class Source(Entity):
         :rtype: list
         """
         objs = []
+        objs.extend(self.referring_groups)
         objs.extend(self.referring_data_arrays)
         objs.extend(self.referring_tags)
         objs.extend(self.referring_multi_tags)
         return objs
+
+    @property
+    def referring_groups(self):
+        """
+        Returns all Group entities linking to this source.
+
+        :returns: all Groups referring to this source.
+        :rtype: list
+        """
+        block = self.parent_block
+        return [grp for grp in block.groups if self in grp.sources]
 
     @property
     def referring_data_arrays(self):
